@@ -59,6 +59,19 @@ def handleApi : Handler := fun st op args =>
             let d := r.winDetails
             fmtOutcome d.over d.winner (d.reason == .road) d.whiteFlats d.blackFlats ++ " " ++ accStr r
       | _, _ => "bad-move")
+  | "cfgreuse", [_src, ptok] =>
+    -- where a Config value came from is invisible: the verdict and the accessors of the rebuilt position are those of the
+    -- target (rebuilt from its squares: C01.fromSquares_wf), and a new game of that configuration has its size and stones
+    some (st, withPos ptok fun p =>
+      let board := (Spec.abs p).squares.map (fun sq => sq.map Piece.code)
+      match Pos.fromSquares st.basis p.cfg board p.move with
+      | .error e => fmtErr e
+      | .ok q =>
+        let d := q.winDetails
+        let fresh := match Pos.new p.cfg with
+          | .ok f => s!"{f.cfg.size},{f.whiteStones.toNat}"
+          | .error e => fmtErr e
+        fmtOutcome d.over d.winner (d.reason == .road) d.whiteFlats d.blackFlats ++ " " ++ accStr q ++ " new=" ++ fresh)
   | "api.flood", [n, w, s] =>
     match n.toNat?, w.toNat?, s.toNat? with
     | some n, some w, some s =>
